@@ -1,2 +1,152 @@
-(* placeholder while the proofs are being written *)
-From MTV Require Import TLGen.Parser.
+(* C14 - Schema parser and code generator translate any schema faithfully, reproducibly.
+   Statements only; proofs live in TLGen/ParserProofs.v and TLGen/ClassifyProofs.v.
+
+   [parse source]   tlparser.ParseSchema on the bytes of the schema file (after the C14 fixes), projected
+                    on names, ids, parameters (order, type, vector and flag markers) and result types;
+                    SPanic = a Go panic, SFuel = the loop budget ran out (never confused with a result).
+   [print s]        canonical text of a schema value.
+   [wf_schema s]    the decidable description of the documented subset (identifier characters, ids below
+                    2^32, bits 0..31, no name from the excluded list, ...).
+   [emit o ms]      what the five generated files declare when Go iterates over its maps in the order [o]
+                    (any permutation of the groups of constructors by result type).
+   [goify]          the strcase-based name mangling: an arbitrary function here (oracle in the check).
+   [sort_defs], [sort_strs]  sort.Slice by Name / sort.Strings: anything returning a sorted permutation. *)
+From Coq Require Import String.
+From Coq Require Import NArith List Bool Permutation Sorted.
+From MTV Require Import Base.Bytes Base.Outcome Base.Str
+  TLGen.Parser TLGen.Printer TLGen.Classify TLGen.ParserProofs TLGen.ClassifyProofs.
+Import ListNotations.
+Open Scope N_scope.
+
+(* ParseSchema never panics: for all byte strings, whatever the loop budget *)
+Theorem C14_parse_total : forall fuel source, parse_fuel fuel source <> SPanic.
+Proof. exact parse_total. Qed.
+Print Assumptions C14_parse_total.
+
+(* the parser extracts exactly what was declared: for every schema value of the subset, parsing its
+   text gives the value back (with the default loop budget, so SFuel is excluded too) *)
+Theorem C14_parse_print : forall s, wf_schema s = true -> parse (print s) = SOk s.
+Proof. exact parse_print. Qed.
+Print Assumptions C14_parse_print.
+
+(* Termination.  Full statement, NOT proved:   forall source, parse source <> SFuel
+   (the default loop budget 2*len+64 is never exhausted).  The cursor can move BACKWARDS when IsNext fails
+   after having run into the end of the source, so no simple measure decreases; the check treats an SFuel of
+   the model and a hang of ParseSchema as result classes of their own and has met neither.
+   Proved part: the texts of the subset (and, in Inst/C14i.v, the shipped schema) are parsed within budget. *)
+Theorem C14_parse_terminates_partial : forall s, wf_schema s = true -> parse (print s) <> SFuel.
+Proof. intros s H. rewrite (parse_print s H). discriminate. Qed.
+Print Assumptions C14_parse_terminates_partial.
+
+(* the hypothesis is satisfiable by a schema using every feature of the subset *)
+Example C14_parse_print_example :
+  let s := mkschema
+    [mkdef (lit "inputPeerEmpty") 2134579434 [] (lit "InputPeer") false;
+     mkdef (lit "storage.fileJpeg") 8322574 [] (lit "storage.FileType") false;
+     mkdef (lit "chatPhoto") 3523977020
+           [mkparam (lit "flags") (lit "bitflags") false false 0;
+            mkparam (lit "has_video") (lit "true") false true 0;
+            mkparam (lit "sizes") (lit "PhotoSize") true true 31;
+            mkparam (lit "dc_id") (lit "int") false false 0] (lit "ChatPhoto") false]
+    [mkdef (lit "messages.getChats") 1013621127 [mkparam (lit "id") (lit "int") true false 0] (lit "messages.Chats") false;
+     mkdef (lit "contacts.block") 1758204945 [mkparam (lit "id") (lit "InputPeer") false false 0] (lit "Bool") false;
+     mkdef (lit "upload.getFileHashes") 3338819889 [] (lit "FileHash") true] in
+  wf_schema s = true /\ parse (print s) = SOk s.
+Proof. split; vm_compute; reflexivity. Qed.
+
+(* the generated declarations do not depend on Go's map iteration order *)
+Theorem C14_deterministic :
+  forall (goify : str -> bool -> str) (sort_defs : list def -> list def) (sort_strs : list str -> list str),
+  (forall l, Permutation (sort_defs l) l) ->
+  (forall l, Sorted (fun a b => str_le (d_name a) (d_name b)) (sort_defs l)) ->
+  (forall l, Permutation (sort_strs l) l) ->
+  (forall l, Sorted str_le (sort_strs l)) ->
+  forall (s : schema) (o1 o2 : list group),
+  Permutation o1 (groups (s_objects s)) -> Permutation o2 (groups (s_objects s)) ->
+  NoDup (map d_name (s_objects s)) ->
+  emit goify sort_defs sort_strs o1 (s_methods s) = emit goify sort_defs sort_strs o2 (s_methods s).
+Proof.
+  intros goify sd ss H1 H2 H3 H4 s o1 o2 Hp1 Hp2 Hn.
+  exact (emit_order_independent goify sd ss H1 H2 H3 H4 (s_objects s) (s_methods s) o1 o2 Hp1 Hp2 Hn).
+Qed.
+Print Assumptions C14_deterministic.
+
+(* the sort hypotheses are satisfiable: the insertion sort the extracted model runs with *)
+Example C14_sorts_exist :
+  (forall l, Permutation (isort_defs l) l) /\
+  (forall l, Sorted (fun a b => str_le (d_name a) (d_name b)) (isort_defs l)) /\
+  (forall l, Permutation (isort_strs l) l) /\
+  (forall l, Sorted str_le (isort_strs l)).
+Proof.
+  repeat split; intros l.
+  - apply isort_by_perm.
+  - apply (isort_by_sorted d_name).
+  - apply isort_by_perm.
+  - apply (isort_by_sorted (fun s => s)).
+Qed.
+
+(* the generated package declares the constructors of the schema with the schema's ids, field layouts
+   and flag positions - and nothing else.  [describes tid d sd]: the struct descriptor [sd] has the id of
+   [d], one field per parameter other than the flags word, in order, with the Go kind of the parameter's
+   type, its vector marker and its flag bit, and FlagIndex() is the position of the flags word among all
+   parameters (present exactly when a parameter is conditional). *)
+Theorem C14_layout :
+  forall (goify : str -> bool -> str) (sort_defs : list def -> list def) (sort_strs : list str -> list str),
+  (forall l, Permutation (sort_defs l) l) ->
+  (forall l, Permutation (sort_strs l) l) ->
+  forall (s : schema) (o : list group) (out : output),
+  Permutation o (groups (s_objects s)) ->
+  emit goify sort_defs sort_strs o (s_methods s) = Ok out ->
+  let tid := type_id goify (groups (s_objects s)) in
+  (forall d, In d (s_objects s) ->
+     exists l, In (d_type d, l) o /\ In d l /\ emitted_object goify tid out l d)
+  /\ (forall m, In m (s_methods s) -> exists x, In x (o_methods out) /\ emitted_method goify tid m x)
+  /\ (forall e v, In e (o_enums out) -> In v (e_vals e) ->
+        exists d, In d (s_objects s) /\ v = enum_entry goify d /\ e_native e = d_type d)
+  /\ (forall sd, In sd (o_types out) ->
+        exists d, In d (s_objects s) /\ sd_name sd = goify (d_name d) true /\ describes goify tid d sd)
+  /\ (forall n ss sd, In (n, ss) (o_ifaces out) -> In sd ss ->
+        exists d, In d (s_objects s) /\ n = goify (d_type d) true
+                  /\ sd_name sd = goify (member_name goify (d_type d) d) true /\ describes goify tid d sd)
+  /\ (forall x, In x (o_methods out) -> exists m, In m (s_methods s) /\ emitted_method goify tid m x).
+Proof.
+  intros goify sd ss H1 H2 s o out Hp He.
+  exact (emit_layout goify sd ss H1 H2 (s_objects s) (s_methods s) o out Hp He).
+Qed.
+Print Assumptions C14_layout.
+
+(* on the subset (every referenced type declared, conditional parameters accompanied by a flags word) the
+   generator does not panic, for any iteration order *)
+Theorem C14_generator_total :
+  forall (goify : str -> bool -> str) (sort_defs : list def -> list def) (sort_strs : list str -> list str),
+  (forall l, Permutation (sort_defs l) l) ->
+  forall (s : schema) (o : list group),
+  Permutation o (groups (s_objects s)) -> wf_gen goify s = true ->
+  exists out, emit goify sort_defs sort_strs o (s_methods s) = Ok out.
+Proof.
+  intros goify sd ss H1 [objs ms] o Hp Hw.
+  exact (emit_total goify sd ss H1 objs ms o Hp Hw).
+Qed.
+Print Assumptions C14_generator_total.
+
+(* the hypothesis "emit ... = Ok out" is satisfiable (a schema with an enum, a stand-alone struct with
+   a flags word that is not the first parameter, an interface with a name clash, and two functions) *)
+Example C14_layout_example :
+  let s := mkschema
+    [mkdef (lit "storage.fileJpeg") 8322574 [] (lit "storage.FileType") false;
+     mkdef (lit "storage.filePng") 172975040 [] (lit "storage.FileType") false;
+     mkdef (lit "peerSettings") 1933519201
+           [mkparam (lit "id") (lit "long") false false 0;
+            mkparam (lit "flags") (lit "bitflags") false false 0;
+            mkparam (lit "report_spam") (lit "true") false true 0;
+            mkparam (lit "geo_distance") (lit "int") false true 6;
+            mkparam (lit "kind") (lit "storage.FileType") true true 6] (lit "PeerSettings") false;
+     mkdef (lit "chatPhotoEmpty") 935395612 [] (lit "ChatPhoto") false;
+     mkdef (lit "chatPhoto") 3523977020 [mkparam (lit "dc_id") (lit "int") false false 0] (lit "ChatPhoto") false]
+    [mkdef (lit "getSettings") 1 [mkparam (lit "peer") (lit "ChatPhoto") false false 0] (lit "PeerSettings") false;
+     mkdef (lit "block") 2 [] (lit "Bool") false] in
+  (* a stand-in for goify that keeps the clash chatPhoto / ChatPhoto *)
+  let goify := fun (n : str) (_ : bool) => match n with c :: t => (if andb (97 <=? c) (c <=? 122) then c - 32 else c) :: t | [] => [] end in
+  is_ok (emit goify isort_defs isort_strs (groups (s_objects s)) (s_methods s)) = true
+  /\ is_ok (emit goify isort_defs isort_strs (rev (groups (s_objects s))) (s_methods s)) = true.
+Proof. split; vm_compute; reflexivity. Qed.
